@@ -12,6 +12,8 @@ pub mod fub;
 #[cfg(futures_buffered_verif)]
 pub mod fo;
 #[cfg(futures_buffered_verif)]
+pub mod ctor;
+#[cfg(futures_buffered_verif)]
 pub mod fob;
 #[cfg(futures_buffered_verif)]
 pub mod ad;
